@@ -214,20 +214,40 @@ def r36_units(repo, sink):
     sink.check(worst is None, "R36", "units:prepare-table", pf,
                ok="prepare converts compatible non-equivalent units (also when it wraps the data into a masked array), refuses incompatible ones",
                bad=worst or "")
-    # prepare / check refuse incompatible units with FinamDataError; accepts() reports units
-    core = repo.module("src/finam/data/tools/core.py")
-    for fname in ("prepare", "check"):
-        f = repo.func("src/finam/data/tools/core.py", fname)
-        ok = False
-        for n in fn_walk(f.node):
-            if isinstance(n, ast.If) and "compatible_units" in U(n.test) and U(n.test).startswith("not") \
-                    and any(isinstance(x, ast.Raise) and "FinamDataError" in U(x) for x in n.body):
-                ok = True
-        sink.check(ok, "R36", f"units:refusal:{fname}", f, ok="incompatible units raise FinamDataError", bad=f"{fname} no longer refuses incompatible units with FinamDataError")
-    f = repo.func("src/finam/data/tools/core.py", "prepare")
-    t = U(f.node)
-    sink.check("if not equivalent_units(data.units, units):" in t and "data = data.to(units)" in t, "R36", "units:prepare-converts", f,
-               ok="prepare converts non-equivalent compatible units", bad="prepare does not convert published data with foreign units")
+    # check(): refuses data whose units are incompatible with the info, accepts compatible ones
+    cf = repo.func("src/finam/data/tools/core.py", "check")
+    worst = None
+    for compatible, has_time in itertools.product((True, False), (True, False)):
+        it = _CheckInterp(repo, compatible, False, has_time)
+        info = Obj(label="info", fields={"units": b, "is_masked": False, "mask": None, "fill_value": None, "grid": None})
+        try:
+            got = it.run(cf, [Sym("qty", Sym("mag"), a), info])
+        except Raised as r:
+            got = ("raise", r.name)
+        want = None if (compatible and has_time) else ("raise", "FinamDataError")
+        if got != want:
+            worst = worst or f"check(data in unit a, info in unit b) with dimension-equal={compatible}, time axis present={has_time}: {got!r}, expected {want!r}"
+    sink.check(worst is None, "R36", "units:refusal:check", cf, ok="check refuses incompatible units and a missing time axis with FinamDataError, accepts otherwise", bad=worst or "")
+
+
+class _CheckInterp(_PrepInterp):
+    def __init__(self, repo, compatible, equivalent, has_time):
+        super().__init__(repo, compatible, equivalent)
+        self.has_time = has_time
+
+    def call_hook(self, fv, args, kwargs, node, mod):
+        if isinstance(fv, Closure):
+            n = getattr(fv.func, "name", "")
+            if n in ("check_quantified", "_check_shape"):
+                return None
+            if n == "has_time_axis":
+                return self.has_time
+        return super().call_hook(fv, args, kwargs, node, mod)
+
+    def get_attr(self, obj, attr, node, mod):
+        if isinstance(obj, Sym) and obj.op == "qty" and attr == "shape":
+            return (Sym("t"), Sym("n0"), Sym("n1"))
+        return super().get_attr(obj, attr, node, mod)
 
 
 # =========================================================================== R37
@@ -369,19 +389,6 @@ def r37_masktable(repo, sink):
                ok=f"{cases} combinations: FLEX consumer accepts any producer, NONE only NONE, a fixed mask only an equal mask",
                bad=worst or "")
     sink.floor("R37", "mask combinations", cases, 98)
-    # masks travel with their own grid
-    acc = repo.method("Info", "accepts")
-    mc = [c for c in calls(acc.node, "masks_compatible")]
-    ok = len(mc) == 1 and [U(a) for a in mc[0].args] == ["self.mask", "incoming.mask", acc.params[2], "self.grid", "incoming.grid"]
-    sink.check(ok, "R37", "mask-grid-pairing:accepts", acc, ok="each mask is passed with its own grid", bad="Info.accepts pairs a mask with the wrong grid / flag")
-    me = repo.func(MASK_PY, "masks_equal")
-    t = U(me.node)
-    sink.check("this = this_grid.to_canonical(this)" in t and "other = other_grid.to_canonical(other)" in t, "R37", "mask-grid-pairing:masks_equal", me,
-               ok="each mask is brought to canonical form with its own grid", bad="masks_equal canonicalises a mask with the other mask's grid")
-    # prepare applies info.mask: decided semantically by R37p (mask alignment); here only the guards
-    p = repo.func("src/finam/data/tools/core.py", "prepare")
-    guards = [n for n in fn_walk(p.node) if isinstance(n, ast.If) and "info.is_masked" in U(n.test)]
-    sink.check(len(guards) >= 2, "R37", "prepare-mask-guards", p, ok="mask applied under info.is_masked for quantified and plain data", bad="prepare misses a branch applying the mask")
 
 
 # ========================================================================== R33c
@@ -779,11 +786,15 @@ class _InfoInterp(FinamInterp):
     def __init__(self, repo, script):
         super().__init__(repo)
         self.script = script
+        self.mask_calls = []
 
     def call_hook(self, fv, args, kwargs, node, mod):
         if isinstance(fv, Closure):
             n = getattr(fv.func, "name", "")
             if n == "masks_compatible":
+                bound = dict(zip(fv.func.params, args))
+                bound.update(kwargs)
+                self.mask_calls.append(bound)
                 return self.script["mask"]
             if n == "compatible_units":
                 return self.script["units"]
@@ -814,6 +825,7 @@ def r15_fields(repo, sink):
     acc = repo.method("Info", "accepts")
     G = Obj(label="grid")
     worst, cases = None, 0
+    pairing, pair_bad = 0, None
     for g_ok, m_ok, u_ok, down, inc_none in itertools.product((True, False), (True, False), (True, False), (False, True), (False, True)):
         cases += 1
         it = _InfoInterp(repo, {"grid": g_ok, "mask": m_ok, "units": u_ok})
@@ -825,6 +837,15 @@ def r15_fields(repo, sink):
         except (Raised, Undecided) as exc:
             worst = worst or f"accepts raises {exc}"
             continue
+        for b in it.mask_calls:
+            pairing += 1
+            want = {"this": me.fields["_mask"], "incoming": inc.fields["_mask"], "this_grid": me.fields["_grid"], "incoming_grid": inc.fields["_grid"]}
+            for k, v in want.items():
+                if b.get(k) is not v and b.get(k) != v:
+                    pair_bad = pair_bad or f"masks_compatible is called with {k}={b.get(k)!r} where the {k.replace('_', ' ')} is {v!r}"
+            flagv = [v for k, v in b.items() if k not in want]
+            if flagv != [down]:
+                pair_bad = pair_bad or f"masks_compatible is told the incoming side is {'downstream' if flagv and flagv[0] else 'upstream'} while accepts was called with downstream={down}"
         exp_fail = set()
         tolerated = down and inc_none
         if not tolerated:
@@ -840,43 +861,15 @@ def r15_fields(repo, sink):
     sink.check(worst is None, "R15", "accepts-table", acc,
                ok=f"{cases} cases: every incompatible field is recorded and clears the result; unset fields are tolerated only from downstream",
                bad=worst or "")
-    # both directions, and a rejection always ends in FinamMetaDataError
-    og = repo.method("Output", "get_info")
-    ie = repo.method("Input", "exchange_info")
-    for f, flag in ((og, True), (ie, False)):
-        cs = [c for c in calls(f.node, "accepts")]
-        ok = len(cs) == 1
-        if ok:
-            kw = {k.arg: U(k.value) for k in cs[0].keywords}
-            ok = (kw.get("incoming_donwstream") == "True") == flag
-            test = cs[0]
-            while not isinstance(test, ast.If):
-                test = test._parent
-            ok = ok and U(test.test).startswith("not ") and any(isinstance(x, ast.Raise) and "FinamMetaDataError" in U(x) for x in ast.walk(test))
-            cfg = CFG(f.node)
-            rets = [r for r in fn_walk(f.node) if isinstance(r, ast.Return)]
-            ok = ok and all(cfg.dominates(cfg.node_of(test), cfg.node_of(r)) for r in rets)
-        sink.check(ok, "R15", f"accepts-call:{f.qualname}", f, ok="compatibility is checked (right direction) and a conflict raises FinamMetaDataError",
-                   bad=f"{f.qualname} does not check compatibility in the {'downstream' if flag else 'upstream'} direction / does not raise FinamMetaDataError")
-    recv = {og.qualname: "self._output_info", ie.qualname: "info"}
-    for f in (og, ie):
-        cs = [c for c in calls(f.node, "accepts")]
-        if cs:
-            sink.check(U(cs[0].func.value) == recv[f.qualname], "R15", f"accepts-receiver:{f.qualname}", f,
-                       ok="the side with the requirement checks the other side's info", bad=f"accepts is called on {U(cs[0].func.value)}")
-    # Output.get_info: fill-or-raise blocks, counter last
-    cfg = CFG(og.node)
-    inc = [n for n in fn_walk(og.node) if isinstance(n, ast.AugAssign) and self_attr(n.target) == "_out_infos_exchanged"]
-    fills = [n for n in fn_walk(og.node) if isinstance(n, ast.Assign) and any("_output_info" in U(t) for t in n.targets)]
-    fields = sorted({("grid" if ".grid" in U(t) else "time" if ".time" in U(t) else "meta") for n in fills for t in n.targets})
-    ok = len(inc) == 1 and fields == ["grid", "meta", "time"] and all(cfg.reachable(cfg.node_of(n), cfg.node_of(inc[0])) and not cfg.reachable(cfg.node_of(inc[0]), cfg.node_of(n)) for n in fills)
-    raises = [n for n in fn_walk(og.node) if isinstance(n, ast.Raise) and "FinamMetaDataError" in U(n)]
-    ok = ok and len(raises) >= 4 and all(not cfg.reachable(cfg.node_of(inc[0]), cfg.node_of(r)) for r in raises)
-    sink.check(ok, "R15", "get_info:fill-then-count", og, ok="unset grid / time / meta are filled from the request (or refused) before the exchange is counted",
-               bad="Output.get_info counts the exchange before all fields are filled or refused / a field is no longer filled")
-    t = U(og.node)
-    sink.check("self._output_info.grid = info.grid" in t and "self._output_info.time = info.time" in t and "self._output_info.meta[k] = info.meta[k]" in t,
-               "R15", "get_info:fill-sources", og, ok="fields are filled from the requesting info", bad="a field is filled from something else than the request")
+    if pairing == 0:
+        sink.unknown("R37", "mask-grid-pairing:accepts", acc, "Info.accepts never reached masks_compatible in the abstract runs")
+    else:
+        sink.check(pair_bad is None, "R37", "mask-grid-pairing:accepts", acc,
+                   ok=f"{pairing} abstract calls: each mask is passed with its own grid and the direction flag of the call",
+                   bad=(pair_bad or "") + ": Info.accepts pairs a mask with the wrong grid / flag")
+    # Output.get_info / Input.exchange_info: decided by abstract runs over scripted infos (rules/exchange.py)
+    from . import exchange
+    exchange.run(repo, sink, (exchange.r16x_output_get_info, exchange.r16x_input_exchange))
 
 
 def r16_getinfo(repo, sink):
@@ -914,17 +907,9 @@ def r16_getinfo(repo, sink):
         sink.check(ok, "R16", f"returns-exchange-result:{c.name}", f, ok="the delivered info derives from the exchange result",
                    bad=f"{c.name}._get_info returns something that does not derive from what the source delivered (e.g. the request itself)")
     sink.floor("R16", "_get_info implementations", n, 6)
-    # Adapter.get_info / exchange_info plumbing
-    gi = repo.method("Adapter", "get_info")
-    sink.check("self._output_info = self._get_info(info)" in U(gi.node) and "return self._output_info" in U(gi.node), "R16", "adapter-get_info", gi,
-               ok="get_info stores and returns the result of _get_info", bad="Adapter.get_info does not store/return the _get_info result")
-    ex = repo.method("Adapter", "exchange_info")
-    t = U(ex.node)
-    sink.check("in_info = self._source.get_info(info)" in t and "self._input_info = in_info" in t and "return in_info" in t, "R16", "adapter-exchange_info", ex,
-               ok="exchange_info forwards the request upstream and records the delivered info", bad="Adapter.exchange_info does not forward / record the delivered info")
-    td = repo.method("TimeDelayAdapter", "get_info")
-    sink.check("self.initial_time = self._output_info.time" in U(td.node), "R16", "delay-initial-time", td, ok="delay adapters take their start time from the exchanged info",
-               bad="TimeDelayAdapter.get_info no longer records initial_time")
+    # Adapter.get_info / exchange_info plumbing: abstract runs (rules/exchange.py)
+    from . import exchange
+    exchange.run(repo, sink, (exchange.r16x_adapter_plumbing,))
 
 
 def _derives_from(f, expr, roots, stop=(), depth=0):
@@ -1385,15 +1370,16 @@ class _PrepMaskInterp(FinamInterp):
     reshapes m in C order; reshaping a masked array with order=O reshapes data and mask
     with O."""
 
-    def __init__(self, repo, grid_order):
+    def __init__(self, repo, grid_order, quantified=False):
         super().__init__(repo)
         self.grid_order = grid_order
+        self.quantified = quantified
 
     def call_hook(self, fv, args, kwargs, node, mod):
         if isinstance(fv, Closure):
             n = getattr(fv.func, "name", "")
             if n == "is_quantified":
-                return False
+                return self.quantified and isinstance(args[0], _MArr)
             if n in ("compatible_units", "equivalent_units"):
                 return True
         if isinstance(fv, Sym) and fv.op == "reshape_of":
@@ -1415,8 +1401,12 @@ class _PrepMaskInterp(FinamInterp):
     def get_attr(self, obj, attr, node, mod):
         if isinstance(obj, _MArr) and attr == "reshape":
             return Sym("reshape_of", Ref(obj))
-        if isinstance(obj, _MArr) and attr == "copy":
+        if isinstance(obj, _MArr) and attr in ("copy", "to"):
             return Sym("ident", Ref(obj))
+        if isinstance(obj, _MArr) and attr == "magnitude":
+            return obj
+        if isinstance(obj, _MArr) and attr == "units":
+            return Sym("u")
         if isinstance(obj, Obj) and obj.label in ("info", "grid") and attr in obj.fields:
             return obj.fields[attr]
         return super().get_attr(obj, attr, node, mod)
@@ -1438,6 +1428,8 @@ class _PrepMaskInterp(FinamInterp):
             mask = kwargs.get("mask")
             if not isinstance(data, _MArr):
                 raise AnalysisError("np.ma.array on a non-array")
+            if mask is None or mask is False or (isinstance(mask, Sym) and mask.op == "ext" and mask.args[0].endswith("nomask")):
+                return _marr(data.fields["shape"], None, "masked-without-mask")
             mshape = mask.fields["shape"] if isinstance(mask, _MArr) else None
             if mshape is None:
                 raise AnalysisError("mask of unknown shape")
@@ -1497,7 +1489,7 @@ def r37p_prepare_mask(repo, sink):
     f = repo.func("src/finam/data/tools/core.py", "prepare")
     worst = None
     n = 0
-    for order in ("C", "F"):
+    for order, quantified in itertools.product(("C", "F"), (False, True)):
         for shape in ((3, 2), (1, 3, 2), (6,)):
             n += 1
             grid = Obj(label="grid")
@@ -1505,11 +1497,11 @@ def r37p_prepare_mask(repo, sink):
             mask = _marr((3, 2), None, "info.mask")
             info = Obj(label="info")
             info.fields.update(units=Sym("u"), is_masked=True, mask=mask, fill_value=None, grid=grid)
-            it = _PrepMaskInterp(repo, order)
+            it = _PrepMaskInterp(repo, order, quantified)
             try:
                 got = it.run(f, [_marr(shape), info])
             except Raised as r:
-                worst = worst or f"data of shape {shape} on a {order}-ordered grid with a fixed (3, 2) mask: raises {r.name}"
+                worst = worst or f"{'quantified' if quantified else 'plain'} data of shape {shape} on a {order}-ordered grid with a fixed (3, 2) mask: raises {r.name}"
                 continue
             except (Undecided, AnalysisError) as exc:
                 sink.unknown("R37", "prepare-mask-alignment", f, f"prepare outside vocabulary: {exc}")
@@ -1525,7 +1517,7 @@ def r37p_prepare_mask(repo, sink):
                 how = {"scrambled": ("a mask flattened in the grid's order is re-expanded onto non-flat data by numpy.ma with a C-order reshape"
                                      if len(shape) > 1 else "the mask was flattened in C order by numpy.ma but the data is reshaped in the grid's order"),
                        "C-raveled-from": "the mask stays flattened in C order"}.get(m[0] if m else "", "no mask applied")
-                worst = worst or (f"data of shape {shape} on a {order}-ordered grid with a fixed (3, 2) mask: the applied mask is not info.mask "
+                worst = worst or (f"{'quantified' if quantified else 'plain'} data of shape {shape} on a {order}-ordered grid with a fixed (3, 2) mask: the applied mask is not info.mask "
                                   f"({how}): masked and unmasked cells are permuted")
     sink.check(worst is None, "R37", "prepare-mask-alignment", f,
-               ok=f"{n} cases (grid shape, with time axis, flat; C and F order): the applied mask is exactly info.mask", bad=worst or "")
+               ok=f"{n} cases (grid shape, with time axis, flat; C and F order; plain and quantified data): the applied mask is exactly info.mask", bad=worst or "")
